@@ -2,7 +2,7 @@
 
 from typing import Any, Callable, Mapping, Optional, Sequence, Type, cast
 
-from ..exc import ExecutionError
+from ..exc import CoercionError, ExecutionError
 from ..lang import ast as _ast
 from ..schema import Schema
 from ..utilities import coerce_variable_values
@@ -114,18 +114,29 @@ def execute(
         cast(Instrumentation, instrumentation).on_execution_end()
         return GraphQLResult(data=data, errors=executor.errors)
 
-    return runtime.ensure_wrapped(
-        runtime.map_value(
-            runtime.unwrap_value(
-                exe_fn(
-                    root_type,
-                    initial_value,
-                    [],
-                    executor.collect_fields(
-                        root_type, operation.selection_set.selections
-                    ),
-                )
-            ),
-            _on_finish,
+    def _on_coercion_error(err):
+        # Arguments of `@skip` and `@include` are coerced while the selections
+        # are collected: a null variable used as condition passes validation
+        # when it declares a default value and cannot be executed.
+        cast(Instrumentation, instrumentation).on_execution_end()
+        return GraphQLResult(data=None, errors=[err])
+
+    try:
+        return runtime.ensure_wrapped(
+            runtime.map_value(
+                runtime.unwrap_value(
+                    exe_fn(
+                        root_type,
+                        initial_value,
+                        [],
+                        executor.collect_fields(
+                            root_type, operation.selection_set.selections
+                        ),
+                    )
+                ),
+                _on_finish,
+                else_=(CoercionError, _on_coercion_error),
+            )
         )
-    )
+    except CoercionError as err:
+        return runtime.ensure_wrapped(_on_coercion_error(err))
